@@ -256,6 +256,22 @@ CHECKS = {
         note="The guarantee is as wide as the corpus and vectors; time-stamps are re-applied from the manifest; the corpus is never "
              "regenerated by a check (tools/mkgolden.py documents how it was made).",
         design="DESIGN.md section 4, C16"),
+    "C13": dict(
+        category="exploration",
+        technique="schedule exploration by property-based testing: (a) the real io.c ring driven by stub workers with seeded delays and pattern canaries, (b) whole-program differential over cache depths / jittered schedules / scan modes, (c) ownership monitor over the -DSNAPRAID_VERIF hook trace",
+        engine="hypothesis-cli + native/ring_harness.c + lib/ringmon.py",
+        text="(a) native/ring_harness.c drives io_init/io_start/io_read_next/io_data_read/io_parity_read/io_write_preset/"
+             "io_parity_write/io_write_next/io_stop exactly as sync and scrub do, with 1..12 readers, 1..6 writers, 1 and 3..128 "
+             "slots, skipped stripes and writes, early stop, writer errors and seeded delays; every buffer carries a pattern derived "
+             "from (stripe, worker) that is verified at hand-over and again after a delay; order, exactly-once and termination are "
+             "checked (alarm). (b) the same array snapshot is synced / scrubbed under different cache depths, shim jitter seeds, hook "
+             "yields and scan modes with frozen clock: exit status, parity bytes, decoded state, error tags and the set of parity "
+             "writes (each exactly once) must equal the single-threaded run. (c) the hook trace of (a) and (b) is checked by a monitor "
+             "of the slot ownership protocol (no read into a buffer the caller holds, no hand-over during a read, no write from a slot "
+             "the caller computes in, writers only write the stripe handed over).",
+        note="Schedules are sampled, not enumerated; a race window that no perturbation point straddles can be missed (an exhaustive "
+             "model of the ring would be model checking, outside this study's technique).",
+        design="DESIGN.md section 4, C13"),
 }
 
 NOT_YET = "check not built yet at this commit (planned in DESIGN.md section 4); not claimed until it runs"
